@@ -137,6 +137,7 @@ def ser_shortcut(sc, sid, idof):
         "endPad": sc.end_padding.format() if sc.end_padding else "",
         "mulTxt": "",
         "mulWritten": None,
+        "mulOg": rat(num._og_value) if kind == "mul" and isinstance(num._og_value, (int, float)) else None,
     }
     if kind == "lin" and hasattr(sc, "_begin"):
         d["sBegin"], d["sEnd"], d["sSpacing"] = rat(sc._begin), rat(sc._end), rat(sc._spacing)
@@ -156,6 +157,9 @@ def ser_leaf(node, idof):
     txt_pad = txt
     if node.padding is None:
         c = copy.deepcopy(node)
+        # as ListNode.format does it (6842337): the width worked out earlier is widened by the blank
+        if getattr(c, "_is_reversed", False):
+            c._formatter["value_length"] += 1
         c.padding = sn.PaddingNode(" ")
         txt_pad = c.format()
     ty = 0 if node.type is float else 1 if node.type is int else 2
@@ -302,6 +306,25 @@ def _run_impl(case):
         res["rounds"].append(ob)
         if "err" in ob or "err" in ob.get("second", {}):
             break
+    # standing check: the text does not depend on whether the list was rebuilt (written) between the edits
+    rounds = res["rounds"]
+    if len(case["rounds"]) >= 2 and len(rounds) == len(case["rounds"]) and all("err" not in o and "err" not in o.get("second", {}) for o in rounds):
+        try:
+            ln2 = parse_list(case["text"])
+            vals2 = list(ln2)
+            same_positions = True
+            for edits, o in zip(case["rounds"], rounds):
+                vals2 = apply_edits(vals2, edits)
+                # a trailing jump the list drops changes the positions later edits refer to: not comparable
+                if len(vals2) == 0 or len(vals2) != len(o["values"]) or [rat(v.value) if v.value is not None else None for v in vals2] != o["values"]:
+                    same_positions = False
+                    break
+            if same_positions:
+                ln2.update_with_new_values(vals2)
+                res["merged_text"] = ln2.format()
+        except Exception as e:  # noqa: BLE001
+            _only_impl(e)
+            res["merged_text"] = "raised " + type(e).__name__
     return res
 
 
@@ -536,6 +559,29 @@ def gen_random(rng, i):
     return {"unit": "listnode", "text": text, "rounds": rounds}
 
 
+def gen_produced_edit(rng, i):
+    """edit a node that a shortcut PRODUCED (repeat copy, product, interpolate), to its base's / neighbour's value or a
+    new one, then write; often a second round, and copies handed in as the importances do"""
+    head = rng.choice(["", "50. ", "2 1 ", "j "])
+    a = rng.choice(["1.0", "4", "2", "0.5", "8"])
+    sc, n = rng.choice([("2m", 1), ("5m", 1), ("2m 3m", 2), ("2m", 1), ("3r", 3), ("r", 1), ("2i 16", 3), ("i 3", 2), ("ilog 64", 2), ("5m 3R", 4), ("2r 2m", 3), ("2m 2i 16", 4)])
+    tail = rng.choice(["", " 1 2.", " 7", " j 3"])
+    text = f"{head}{a} {sc}{tail}"
+    ex = ref.expand(text)
+    nv = len(ex) if ex else 4
+    first = len(ref.expand(head + a) or [0]) - 1  # position of the base
+    rounds = []
+    for _ in range(rng.choice([1, 2, 2, 3])):
+        edits = [["copyall"]] if rng.random() < 0.4 else []
+        pos = first + rng.randint(1, n)
+        val = rng.choice([float(a), float(a), 1.0, 2.0, 4.0, 0.0, 20.0])
+        edits.append(["set", pos, val])
+        if rng.random() < 0.4:
+            edits.append(["set", rng.randrange(nv), rng.choice([0.0, 1.0, 2.0, 4.0])])
+        rounds.append(edits)
+    return {"unit": "listnode", "text": text, "rounds": rounds}
+
+
 def gen_drift(rng, i):
     """values that differ from their neighbour by less than rel_tol but drift away from the written value"""
     n = rng.randint(3, 9)
@@ -567,6 +613,9 @@ CORPUS = [
     {"unit": "listnode", "text": "1 2i 4", "rounds": [[["set", 1, 2.5]]]},
     {"unit": "listnode", "text": "1 2i 4 3m", "rounds": [[["set", 3, 5.0]]]},
     {"unit": "listnode", "text": "1 2i 4 2 2 r", "rounds": [[["set", 2, 2.0], ["set", 3, 2.0]]]},
+    # round 7: a value assigned to a shortcut-produced node is written; history independence of a multiply
+    {"unit": "listnode", "text": "4 5m 3R", "rounds": [[["set", 4, 4.0]]]},
+    {"unit": "listnode", "pinned": True, "text": "50. 1.0 2m 1 2.", "rounds": [[["copyall"], ["set", 2, 1.0]], [["copyall"], ["set", 1, 2.0]], [["copyall"], ["set", 4, 0.0]]]},
     # an interpolate that should be 0 (oracle false alarm of round 6: judged on the scale of the interpolation)
     {"unit": "listnode", "text": "-2 3i 1.9999999999999998", "rounds": [[]]},
     {"unit": "listnode", "text": "-2 -1 0 1 1.9999999999999998 4 5m", "rounds": [[["copyall"]], [["set", 5, 4.0]]]},
@@ -707,7 +756,13 @@ def run_card(case):
     _mp()
     with warnings.catch_warnings():
         warnings.simplefilter("ignore")
-        return _run_card(case)
+        ob = _run_card(case)
+        # standing check: the card does not depend on whether the problem was written between the edits
+        if len(case["edits"]) >= 2 and "text" in ob and not case.get("write_between"):
+            ob2 = _run_card(dict(case, write_between=True))
+            if "text" in ob2 and ob2.get("values") == ob.get("values"):
+                ob["text_observed"] = ob2["text"]
+        return ob
 
 
 def _run_card(case):
@@ -747,7 +802,9 @@ def _run_card(case):
             ob["read_err"] = "values:" + type(e).__name__
             return ob
         try:
-            for e in sorted(case["edits"], key=lambda e: e[0] == "unset"):
+            for ne, e in enumerate(sorted(case["edits"], key=lambda e: e[0] == "unset")):
+                if case.get("write_between") and ne > 0:
+                    prob.write_to_file(os.path.join(d, f"between{ne}.imcnp"))
                 cl = list(cells)
                 if e[0] == "set":
                     if kind == "imp":
@@ -845,6 +902,8 @@ def judge_card(case, ob):
         vals = vals  # every cell has an importance
     bad = ref.compare(ob["text"], vals)
     if bad is None:
+        if "text_observed" in ob and ob["text_observed"] != ob["text"]:
+            return (dict(kind_sig, **{"class": "history-dependent", "kind": first, "site": "format", "pinned": bool(case.get("pinned"))}), f"written once at the end {ob['text']!r}, written after every edit {ob['text_observed']!r}")
         if ob.get("second_same") is False:
             return (dict(kind_sig, **{"class": "second-write-differs", "kind": first, "site": "format"}), f"first write {ob['text']!r}, second write {ob.get('second_text')!r}")
         if ob.get("kept") is False:
@@ -920,6 +979,18 @@ def check_listnode_case(chk, drv, case, ri, table, ci, confirm=True):
                     {"impl": {"parse_err": r2.get("parse_err"), "nodes": r2.get("pnodes")}, "model": m2["items"]},
                     dict(case, rounds=[]),
                 )
+            return True
+    # (a blank behind the LAST entry is not compared: an entry keeps the blank it was given while it was not the last)
+    if "merged_text" in ri and ri["rounds"] and "text" in ri["rounds"][-1] and ri["merged_text"].rstrip() != ri["rounds"][-1]["text"].rstrip() \
+            and all(judge_round(o) is None for o in ri["rounds"]):
+        kinds = {pw[0] for w in case["text"].split() for pw in [ref.parse_word(w)] if pw and pw[0] != "number"}
+        sig = {"mechanism": "shortcut", "class": "history-dependent", "kind": "list", "site": "format", "pinned": bool(case.get("pinned"))}
+        nums = sorted(v for v in _floats(ri["rounds"][-1]["values"]) if v is not None)
+        if any(0 < (w - v) <= Fraction(1, 10**9) * max(abs(v), abs(w)) for v, w in zip(nums, nums[1:])):
+            sig["tolerance_chain"] = True
+        r2 = run_impl(case) if confirm else ri
+        if (r2.get("merged_text") or "").rstrip() != ((r2["rounds"][-1].get("text") or "") if r2.get("rounds") else "").rstrip():
+            chk.violation(sig, f"written after every edit round: {ri['rounds'][-1]['text']!r}; written once at the end: {ri['merged_text']!r}", {"case": case, "impl": _strip(r2)})
             return True
     for k, ob in enumerate(ri.get("rounds", [])):
         v = judge_round(ob)
@@ -1080,6 +1151,8 @@ def run(chk):
     ncorpus = len(cases)
     rng = chk.rng("listnode-random")
     cases += [gen_random(rng, i) for i in range(chk.pick(4000, 60000))]
+    rng4 = chk.rng("produced-edit")
+    cases += [gen_produced_edit(rng4, i) for i in range(chk.pick(600, 6000))]
     rng2 = chk.rng("drift")
     cases += [gen_drift(rng2, i) for i in range(chk.pick(200, 3000))]
     nrandom = len(cases) - ncorpus
